@@ -115,11 +115,17 @@ def all_classes(ctx, L):
                        b"'\\xF0\\x9F\\x98\\x80\\360\\237'\n"],
              "attrs": [b"<p a=1 b=\"2\" c>t<q d='3'>\n"]}
     for kind, datas in files.items():
-        for data in datas:
-            res = loaders.real_load(kind, data)
+        for data, how in [(d_, h_) for d_ in datas for h_ in ("fresh", "loaded-twice", "copy-then-load")]:
+            res = loaders.real_load(kind, data) if how == "fresh" else loaders.real_load(kind, data, preload=b"<old a=1 b='2' c>\n'o' + \"p\";\nq;r\n")
             if res[0] != "ok":
                 continue
             t = res[1]
+            if how == "copy-then-load":        # what minimize-collapse-brace does to re-parse a file
+                t2 = t.copy()
+                rp = loaders.scratch() / "c07-reload.txt"
+                rp.write_bytes(data)
+                t2.load(rp)
+                t = t2
             if len(t.parts) != len(t.reducible):
                 ctx.fail("flags", f"{kind}: the loaded testcase has {len(t.parts)} parts and {len(t.reducible)} flags", dict(splitter=kind, data=common.enc_bytes(data)))
                 continue
